@@ -25,7 +25,7 @@ def _mods():
 # ------------------------------------------------------------------------------------------------
 # running
 
-def run(ds, workdir, tag, extra=(), bams=None):
+def run(ds, workdir, tag, extra=(), bams=None, threads=1):
     """ds: gen.synth.Dataset; returns dict(rc, log, out (dir), files, paths)"""
     data = os.path.join(workdir, "data_" + tag)
     paths = ds.write(data)
@@ -36,10 +36,10 @@ def run(ds, workdir, tag, extra=(), bams=None):
             sub = [r for r in ds.reads if pred(r)]
             pp = ds.write(data, bam_name="part%d.bam" % i, reads=sub, write_ref=False)
             files.append(pp["bam"])
-        args = ["--threads", "1", "--bam"] + files + ["--reference", paths["ref"], "--data_type", "nanopore", "-p", "S",
+        args = ["--threads", str(threads), "--bam"] + files + ["--reference", paths["ref"], "--data_type", "nanopore", "-p", "S",
                                                        "--no_gzip", "--genedb", paths["gtf"], "--complete_genedb"]
     else:
-        args = P.std_args(paths)
+        args = P.std_args(paths, threads=threads)
     out = os.path.join(workdir, "out_" + tag)
     rc, log = P.run_isoquant(out, args + list(extra), home=os.path.join(workdir, "home"))
     return {"rc": rc, "log": log, "out": out, "files": P.out_files(out), "paths": paths}
@@ -112,36 +112,24 @@ def expected_retained(alns):
     return "one", set(a[0] for a in alns)
 
 
-def check_dataset(md, workdir, tag, thorough=False):
-    """runs the dataset in the needed variants; returns (failures [(kind, detail)], info)"""
-    fails = []
-    info = {}
-    base = run(md.build(), workdir, tag + "_d")
-    high = run(md.build(), workdir, tag + "_h", extra=["--high_memory"])
-    split = run(md.build(split_names=True), workdir, tag + "_s")
-    for r, nm in ((base, "default"), (high, "high_memory"), (split, "classification")):
-        if r["rc"] != 0 or "S.read_assignments.tsv" not in r["files"]:
-            return [("pipeline:run_failed", "%s run: rc=%s %s" % (nm, r["rc"], r["log"][-600:]))], info
-    # both memory modes: identical outputs
-    for fn in OUT_COMPARED:
-        if fn in base["files"] or fn in high["files"]:
-            a = strip(open(base["files"][fn]).read()) if fn in base["files"] else None
-            b = strip(open(high["files"][fn]).read()) if fn in high["files"] else None
-            if a != b:
-                fails.append(("pipeline:memory_modes_differ", "%s differs between the default and the --high_memory run" % fn))
-    got = parse_assignments(base["files"]["S.read_assignments.tsv"])
-    cls = parse_assignments(split["files"]["S.read_assignments.tsv"])
+def load_outputs(files):
+    got = parse_assignments(files["S.read_assignments.tsv"])
     bed = collections.defaultdict(list)
-    for row in P.read_bed(base["files"]["S.corrected_reads.bed"]):
+    for row in P.read_bed(files["S.corrected_reads.bed"]):
         bed[row[3]].append((row[0], int(row[1]) + 1, int(row[2])))
-    tcounts = parse_counts(base["files"]["S.transcript_counts.tsv"])
-    gcounts = parse_counts(base["files"]["S.gene_counts.tsv"])
     model_reads = collections.defaultdict(set)
-    if "S.transcript_model_reads.tsv" in base["files"]:
-        for l in P.read_lines(base["files"]["S.transcript_model_reads.tsv"]):
+    if "S.transcript_model_reads.tsv" in files:
+        for l in P.read_lines(files["S.transcript_model_reads.tsv"]):
             p = l.split("\t")
             if len(p) >= 2 and p[1] not in ("*", "."):
                 model_reads[p[0]].add(p[1])
+    return got, bed, model_reads, parse_counts(files["S.transcript_counts.tsv"]), parse_counts(files["S.gene_counts.tsv"])
+
+
+def check_mode(md, cls, files, mode, with_totals):
+    """the clauses of the statement on the outputs of one run; returns (failures, {read: retained keys}, n reads)"""
+    fails = []
+    got, bed, model_reads, tcounts, gcounts = load_outputs(files)
     retained_by_read = {}
     n_multi = 0
     for name, alns in md.reads:
@@ -160,31 +148,43 @@ def check_dataset(md, workdir, tag, thorough=False):
         if not ok or len(a_list) < 2:
             continue
         n_multi += 1
-        mode, exp = expected_retained(a_list)
+        mode_, exp = expected_retained(a_list)
         kept = set(got.get(name, {}).keys())
         retained_by_read[name] = kept
         all_keys = set(a[0] for a in a_list)
-        detail = {"read": name, "alignments": [(a[0], a[1], "secondary" if a[2] else "primary", sorted(a[3])) for a in a_list],
-                  "retained": sorted(kept), "expected": sorted(exp), "mode": mode}
-        if mode == "all" and kept != exp:
+        detail = {"read": name, "run": mode,
+                  "alignments": [(a[0], a[1], "secondary" if a[2] else "primary", sorted(a[3])) for a in a_list],
+                  "retained": sorted(kept), "expected": sorted(exp), "mode": mode_}
+        if mode_ == "all" and kept != exp:
             fails.append(("pipeline:priority", detail))
-        elif mode == "some" and not (kept and kept <= exp):
+        elif mode_ == "some" and not (kept and kept <= exp):
             fails.append(("pipeline:priority", detail))
-        elif mode == "one" and not (len(kept) == 1 and kept <= exp):
+        elif mode_ == "one" and not (len(kept) == 1 and kept <= exp):
             fails.append(("pipeline:priority", detail))
         # losers nowhere: the BED lines of the read are the retained alignments (corrected coordinates may differ from
         # the aligned ones, so: as many lines per chromosome as retained alignments, each overlapping one of them)
         lines = bed.get(name, [])
-        ovl = lambda b, k: b[0] == k[0] and b[1] <= k[2] and k[1] <= b[2]
-        if (sorted(b[0] for b in lines) != sorted(k[0] for k in kept)
-                or not all(any(ovl(b, k) for k in kept) for b in lines)):
+        ovl = lambda b_, k_: b_[0] == k_[0] and b_[1] <= k_[2] and k_[1] <= b_[2]
+        if (sorted(b_[0] for b_ in lines) != sorted(k_[0] for k_ in kept)
+                or not all(any(ovl(b_, k_) for k_ in kept) for b_ in lines)):
             fails.append(("pipeline:loser_visible", dict(detail, bed=sorted(lines))))
-        # flagged when the retained loci disagree on the isoform
-        isoforms = set(i for k in kept for i in got[name][k]["isoforms"])
+        # flagged when the retained loci disagree on the isoform (also when they are isoforms of ONE gene)
+        isoforms = set(i for k_ in kept for i in got[name][k_]["isoforms"])
         if len(kept) > 1 and len(isoforms) > 1:
-            for k in kept:
-                if not got[name][k]["types"] <= {"ambiguous", "inconsistent_ambiguous"}:
-                    fails.append(("pipeline:ties_not_flagged", dict(detail, types=sorted(got[name][k]["types"]))))
+            for k_ in kept:
+                if not got[name][k_]["types"] <= {"ambiguous", "inconsistent_ambiguous"}:
+                    fails.append(("pipeline:ties_not_flagged", dict(detail, types=sorted(got[name][k_]["types"]))))
+        # transcript_model_reads: the read supports no transcript of a gene where it has no retained alignment
+        key_gene = {}
+        for k in range(len(alns)):
+            key_gene.setdefault(a_list[k][0], set()).add(md.loci[alns[k][0]][2])
+        kept_genes = set(g for k_ in kept for g in key_gene.get(k_, ()))
+        lost_genes = set(g for k_ in all_keys - kept for g in key_gene.get(k_, ())) - kept_genes
+        bad = [t for t in model_reads.get(name, ()) if any(t.startswith(g + "_") for g in lost_genes)]
+        if bad:
+            fails.append(("pipeline:loser_visible", dict(detail, transcript_model_reads=sorted(bad))))
+        if not with_totals:
+            continue
         # what the read adds to the tables: every isoform of its loci has exactly one other (confirming) read,
         # every gene exactly two
         tt = gg = 0.0
@@ -194,21 +194,50 @@ def check_dataset(md, workdir, tag, thorough=False):
             for suf in ("_Ta", "_Tb"):
                 tt += max(0.0, tcounts.get(gid + suf, 0.0) - 1.0)
             gg += max(0.0, gcounts.get(gid, 0.0) - 2.0)
-        # transcript_model_reads: the read supports no transcript of a gene where it has no retained alignment
-        key_gene = {}
-        for k in range(len(alns)):
-            key_gene.setdefault(a_list[k][0], set()).add(md.loci[alns[k][0]][2])
-        kept_genes = set(g for k in kept for g in key_gene.get(k, ()))
-        lost_genes = set(g for k in all_keys - kept for g in key_gene.get(k, ())) - kept_genes
-        bad = [t for t in model_reads.get(name, ()) if any(t.startswith(g + "_") for g in lost_genes)]
-        if bad:
-            fails.append(("pipeline:loser_visible", dict(detail, transcript_model_reads=sorted(bad))))
         if tt > 1.005 or gg > 1.005:
             w = min(len(kept), int(math.ceil(max(tt, gg) - 0.005)))
             fails.append(("read_total_gt_one",
                           {"strategy": "pipeline default", "transcript_total": tt, "gene_total": gg, "retained": len(kept),
                            "weighted_records_transcript": w if tt > 1.005 else 0, "weighted_records_gene": w if gg > 1.005 else 0,
                            "read": name, "level": "pipeline", "alignments": detail["alignments"]}))
+    return fails, retained_by_read, n_multi
+
+
+RUN_MODES = [("default", [], 1), ("high_memory", ["--high_memory"], 1),
+             ("high_memory_threads2", ["--high_memory"], 2), ("default_threads2", [], 2)]
+
+
+def check_dataset(md, workdir, tag, thorough=False):
+    """runs the dataset in the needed variants; returns (failures [(kind, detail)], info)"""
+    fails = []
+    info = {}
+    split = run(md.build(split_names=True), workdir, tag + "_s")
+    if split["rc"] != 0 or "S.read_assignments.tsv" not in split["files"]:
+        return [("pipeline:run_failed", "classification run: rc=%s %s" % (split["rc"], split["log"][-600:]))], info
+    cls = parse_assignments(split["files"]["S.read_assignments.tsv"])
+    runs = {}
+    for nm, extra, th in RUN_MODES:
+        r = run(md.build(), workdir, tag + "_" + nm, extra=extra, threads=th)
+        if r["rc"] != 0 or "S.read_assignments.tsv" not in r["files"]:
+            return [("pipeline:run_failed", "%s run: rc=%s %s" % (nm, r["rc"], r["log"][-600:]))], info
+        runs[nm] = r
+    base = runs["default"]
+    # memory modes x thread counts: identical outputs
+    for nm, _, _ in RUN_MODES[1:]:
+        for fn in OUT_COMPARED:
+            if fn in base["files"] or fn in runs[nm]["files"]:
+                a = strip(open(base["files"][fn]).read()) if fn in base["files"] else None
+                b = strip(open(runs[nm]["files"][fn]).read()) if fn in runs[nm]["files"] else None
+                if a != b:
+                    fails.append(("pipeline:memory_modes_differ", "%s differs between the default run and the %s run" % (fn, nm)))
+    # the clauses on every run (each mode has its own path to the resolver)
+    retained_by_read = {}
+    n_multi = 0
+    for nm, _, _ in RUN_MODES:
+        f, rb, n = check_mode(md, cls, runs[nm]["files"], nm, with_totals=(nm == "default"))
+        fails += f
+        if nm == "default":
+            retained_by_read, n_multi = rb, n
     info["multi_reads_checked"] = n_multi
     # other orders: chromosome processing order reversed (lengths), chromosome order in FASTA / BAM header reversed,
     # the alignments spread over two BAM files given in either order
@@ -265,12 +294,13 @@ def verdicts_vs_model(ctx, md, workdir, tag):
     ds = md.build()
     lengths = collections.OrderedDict((n, len(s)) for n, s in ds.chroms.items())
     order = sorted(lengths.keys(), key=lambda x: lengths[x], reverse=True)
-    for hm in (False, True):
-        r = run(ds, workdir, tag + ("_kh" if hm else "_kd"), extra=["--keep_tmp"] + (["--high_memory"] if hm else []))
+    for hm, th in ((False, 1), (True, 1), (True, 2)):
+        r = run(ds, workdir, tag + ("_kh%d" % th if hm else "_kd"), extra=["--keep_tmp"] + (["--high_memory"] if hm else []),
+                threads=th)
         ctx.evaluations += 1
-        ctx.count("op:pipeline_verdicts:" + ("high_memory" if hm else "default"))
+        ctx.count("op:pipeline_verdicts:" + ("high_memory" if hm else "default") + ("_threads%d" % th))
         if r["rc"] != 0:
-            ctx.disagree("pipeline_verdicts", {"seed": md.seed, "high_memory": hm}, None, {"error": "error", "log": r["log"][-400:]})
+            ctx.disagree("pipeline_verdicts", {"seed": md.seed, "high_memory": hm, "threads": th}, None, {"error": "error", "log": r["log"][-400:]})
             continue
         aux = os.path.join(r["out"], "S", "aux")
         objs = collections.OrderedDict()
@@ -286,18 +316,19 @@ def verdicts_vs_model(ctx, md, workdir, tag):
         vobjs = [a for v in vfiles.values() for l in v.values() for a in l]
         rk = interned(objs, vobjs)
         stream = [to_num(o, rk) for c in order for o in objs[c]]
-        out = ctx.driver.run([vlib.req("C08.group", records=stream, strategy="take_best", high_memory=hm)])[0]
+        out = ctx.driver.run([vlib.req("C08.group", records=stream, strategy="take_best", high_memory=hm,
+                                       pickled=(hm and th > 1))])[0]
         impl = {str(rk["chr"][c]): [[rk["read"][rid], [to_num(a, rk) for a in lst]] for rid, lst in vfiles[c].items()] for c in order}
         if isinstance(out, dict) or any(vlib.is_err(kv[1]) for kv in out):
-            ctx.disagree("pipeline_verdicts", {"seed": md.seed, "high_memory": hm}, out, impl)
+            ctx.disagree("pipeline_verdicts", {"seed": md.seed, "high_memory": hm, "threads": th}, out, impl)
             continue
         vs = ctx.driver.run([vlib.req("C08.verdicts_for", chr=rk["chr"][c], resolved=out) for c in order])
         model = {str(rk["chr"][c]): v for c, v in zip(order, vs)}
         ctx.traces_validated += 1
         if model != vlib.canon(impl):
-            ctx.disagree("pipeline_verdicts", {"seed": md.seed, "high_memory": hm, "stream": stream}, model, impl)
+            ctx.disagree("pipeline_verdicts", {"seed": md.seed, "high_memory": hm, "threads": th, "stream": stream}, model, impl)
         elif any(v for v in model.values()):
-            ctx.mark_nontrivial(["pipeline_verdicts", md.seed, hm])
+            ctx.mark_nontrivial(["pipeline_verdicts", md.seed, hm, th])
             ctx.count("pipeline_multimapped_reads", sum(len(v) for v in model.values()))
 
 
@@ -309,7 +340,7 @@ def datasets(ctx):
         seed = ctx.rng.randrange(10 ** 6)
         import random
         r = random.Random(seed)
-        res.append(MS.random_dataset(r, seed, n_reads=14 if quick else 22, n_chroms=3))
+        res.append(MS.random_dataset(r, seed, n_reads=16 if quick else 24, n_chroms=3))
     return res
 
 
